@@ -72,5 +72,24 @@ def iterRem (p : Nat → Bool) : Nat → Store → Nat → List Nat × Store
 
 def len (s : Store) : Nat := (toList s).length
 
+/-- the two mutators as data, so that "any state reachable by add/discard" is a fold from `empty` -/
+inductive POp where
+  | add (k : Nat)
+  | discard (k : Nat)
+  deriving Repr
+
+def applyP : POp → Store → Store
+  | .add k, s => add k s
+  | .discard k, s => discard k s
+
+def runP (ops : List POp) : Store := ops.foldl (fun s op => applyP op s) empty
+
+/-- the list-level meaning of the same ops (`OSet.add` / `OSet.discard` written out) -/
+def absP : POp → List Nat → List Nat
+  | .add k, l => if k ∈ l then l else l ++ [k]
+  | .discard k, l => l.erase k
+
+def absRunP (ops : List POp) : List Nat := ops.foldl (fun l op => absP op l) []
+
 end OSetPtr
 end Pyx
